@@ -30,13 +30,25 @@ for p in props:
         "level_note": meta["note"],
         "technique": meta["technique"],
     })
+def _serves(*mods):
+    out = []
+    for pid in props:
+        path = os.path.join(ROOT, "props", pid + ".py")
+        txt = open(path).read() if os.path.exists(path) else ""
+        if any(("vfw import" in l or "from vfw" in l) and any(m in l for m in mods) for l in txt.splitlines()) or any(f"vfw.{m}" in txt or f"import {m}" in txt for m in mods):
+            out.append(pid)
+    return out
+
+
 engines = [
-    {"name": "engine-M", "path": "vfw/trig.py", "serves_properties": ["C02", "C07", "C16", "C18"],
-     "kind_free_text": "shadow execution of the real matrix-expression code over an exact trig-polynomial domain; identities decided by ring normal form + z3 nlsat"},
-    {"name": "engine-V", "path": "vfw/symex.py", "serves_properties": [c["property_id"] for c in checks if "V" in c["engine"]],
-     "kind_free_text": "VC generation by shadow execution of the real function text over z3-backed symbolic values; loops cut by sidecar invariants; callees replaced by their contracts"},
-    {"name": "engine-F", "path": "vfw/frame.py", "serves_properties": ["C20", "C17", "C12"],
-     "kind_free_text": "static frame/ownership checker over the real AST"},
+    {"name": "engine-M", "path": "vfw/trig.py", "serves_properties": _serves("trig", "mcheck", "circ_m", "gates_m"),
+     "kind_free_text": "shadow execution of the real matrix-expression code (src.shadow_load) over an exact trig-polynomial domain; identities decided by ring normal form + z3 nlsat (vfw/trig.py, gates_m.py, circ_m.py, mcheck.py)"},
+    {"name": "engine-V", "path": "vfw/vcontract.py", "serves_properties": _serves("vcontract", "cmodel", "exmodel"),
+     "kind_free_text": "VC generation by shadow execution of the real function text over z3-backed symbolic values; loops cut by sidecar invariants; callees replaced by their contracts; abstract models for circuits (cmodel.py) and sympy expressions (exmodel.py); candidate counter-models replayed natively (vfw/sym.py, vtypes.py, xform.py, vrt.py, vcontract.py, vprop.py, vnative.py)"},
+    {"name": "engine-F", "path": "vfw/frame.py", "serves_properties": list(props),
+     "kind_free_text": "static frame / ownership / purity checker over the real AST; pinned modifies clauses for every function of the anchored modules (contracts/frames.json) checked by every property"},
+    {"name": "lean-prelude", "path": "lean/Prelude.lean", "serves_properties": [pid for pid in props if os.path.exists(os.path.join(ROOT, "props", pid + ".py")) and "lean.prelude_ob" in open(os.path.join(ROOT, "props", pid + ".py")).read()],
+     "kind_free_text": "Lean 4 / Mathlib twins of the trusted rewriting rules and prelude lemmas, re-checked in the thorough tier"},
 ]
 m = {
     "version": 1,
